@@ -209,6 +209,49 @@ Proof.
 Qed.
 Print Assumptions C43_float_single_nearest.
 
+(* ------------------------------------------------------------------ Python ints into float variables *)
+
+(* an int of at most 24 bits (single) / 53 bits (double) - in particular True -> -1 - comes back as exactly that
+   number from a float variable, for every int and every state *)
+Theorem C43_int_into_float_exact : forall E st name sg n, e_fv E = mbf_from_value -> scalar_name name sg ->
+  (sg = sg_sng /\ Z.abs n < 2 ^ 24) \/ (sg = sg_dbl /\ Z.abs n < 2 ^ 53) ->
+  let st' := fst (set_variable E st name (PInt n)) in
+  snd (set_variable E st name (PInt n)) = Ok tt /\
+  get_variable E st' name 0 = Ok (mkfloat n 0) /\ evaluate st' name [] = (st', Ok (mkfloat n 0)).
+Proof.
+  intros E st name sg n HE Hn Hc.
+  assert (Hs : sg_fmt_name sg) by (destruct Hc as [[-> _]|[-> _]]; [left | right]; reflexivity).
+  destruct (Z.eq_dec n 0) as [->|Hz]; [exact (int_float_zero E st name sg HE Hn Hs)|].
+  assert (Hb : Z.abs n < 2 ^ 53) by (destruct Hc as [[_ H]|[_ H]]; [assert (2 ^ 24 < 2 ^ 53) by (apply Z.pow_lt_mono_r; lia) |]; lia).
+  assert (Ha : 0 < Z.abs n) by lia.
+  pose proof (int_float_set_get E st name sg n HE Hn Hs Hz Hb) as H. cbv zeta in H |- *.
+  destruct Hc as [[-> Hc]|[-> Hc]].
+  - change (fmt_of sg_sng) with Fsng in H. rewrite single_roundtrip_exact in H; [exact H | exact Hz | exact Hc|].
+    pose proof (bitlen_le _ 24 Ha ltac:(lia) Hc). destruct (bitlen_spec _ Ha) as (B1 & _). lia.
+  - change (fmt_of sg_dbl) with Fdbl in H. rewrite double_roundtrip_exact in H; [exact H | exact Hz | exact Hc|].
+    pose proof (bitlen_le _ 53 Ha ltac:(lia) Hc). destruct (bitlen_spec _ Ha) as (B1 & _). lia.
+Qed.
+Print Assumptions C43_int_into_float_exact.
+
+(* an int WIDER than the single mantissa (up to 53 bits) is not truncated but rounded to the nearest single:
+   sign * man * 2^(L - 24) with 2 * |man * 2^(L-24) - |n|| <= 2^(L-24), L = number of bits of |n| *)
+Theorem C43_int_into_single_nearest : forall E st name n, e_fv E = mbf_from_value -> scalar_name name sg_sng ->
+  n <> 0 -> Z.abs n < 2 ^ 53 ->
+  let L := bitlen (Z.abs n) in
+  let man := mbf_round_man Fsng (Z.abs n) in
+  let r := mkfloat ((if n <? 0 then -1 else 1) * man) (0 + L - 24) in
+  let st' := fst (set_variable E st name (PInt n)) in
+  (snd (set_variable E st name (PInt n)) = Ok tt /\
+   get_variable E st' name 0 = Ok r /\ evaluate st' name [] = (st', Ok r)) /\
+  (24 < L -> 2 * Z.abs (man * 2 ^ (L - 24) - Z.abs n) <= 2 ^ (L - 24)).
+Proof.
+  intros E st name n HE Hn Hz Hb. cbv zeta. pose proof (int_in_range_single n Hz Hb) as Hr. split.
+  - pose proof (int_float_set_get E st name sg_sng n HE Hn (or_introl eq_refl) Hz Hb) as H. cbv zeta in H.
+    change (fmt_of sg_sng) with Fsng in H. rewrite single_roundtrip_value in H by assumption. exact H.
+  - exact (proj2 (model_near_single n 0 Hz Hr)).
+Qed.
+Print Assumptions C43_int_into_single_nearest.
+
 (* ------------------------------------------------------------------ histories *)
 
 (* the round trips hold after ANY history of API calls and BASIC-side changes (LET, CLEAR / NEW / RUN / storing a
